@@ -504,7 +504,6 @@ func run(c *vkit.Collector, rng *vkit.Rng, budget int) {
 	r.approxStream(budget)
 	r.bigCellStream(budget)
 	r.reuseStream(budget)
-	r.resetStream(budget)
 	r.leafStream(budget)
 	r.interiorStream(budget)
 	kinds := []string{"point", "edge", "cell", "index"}
@@ -542,6 +541,8 @@ func run(c *vkit.Collector, rng *vkit.Rng, budget int) {
 			r.runPair(g, idx, t, nopts, wantT)
 		}
 	}
+	// last, so that the random stream of everything above is the one the stored seeded changes were verified with
+	r.resetStream(budget)
 }
 
 // approxStream: large indexes queried with ShapeIndex targets and a permitted error of the order
